@@ -141,8 +141,9 @@ def build_items(ctx, rnd):
             ka, kb = model.div(ratio.mag, cm), model.div({}, cm)
             e3 = model.implicit_ok(ka, rc, rc) and model.implicit_ok(kb, rc, rc)
             hc = head(r1, r2, ratio, common=True)
-            items.append(witness.Item("mixed:" + key, hc + "void w() { QA a = au::make_quantity<A>(R1{1}); QB b = au::make_quantity<B>(R2{1}); (void)(a + b); (void)(a < b); (void)(a == b); }",
-                                      "accept" if e3 else "reject", None, dict(desc="mixed-unit +, <, == between Quantity<A,%s> and Quantity<B,%s>, A/B = %s (common rep %s)" % (r1, r2, ratio.name, rc), exp=e3)))
+            for onm, oex in (("add", "a + b"), ("sub", "b - a"), ("lt", "a < b"), ("eq", "a == b"), ("ge", "b >= a")):
+                items.append(witness.Item("mixed:%s:%s" % (onm, key), hc + "void w() { QA a = au::make_quantity<A>(R1{1}); QB b = au::make_quantity<B>(R2{1}); (void)(%s); }" % oex,
+                                          "accept" if e3 else "reject", None, dict(desc="mixed-unit `%s` between Quantity<A,%s> and Quantity<B,%s>, A/B = %s (common rep %s)" % (oex, r1, r2, ratio.name, rc), exp=e3)))
             items.append(witness.Item("ct:" + key, hc + "static_assert(std::is_same<typename std::common_type_t<QA, QB>::Rep, std::common_type_t<R1, R2>>::value, \"common_type rep\");",
                                       "accept", None, dict(desc="std::common_type of the two quantity types exists", exp=True)))
         # points with equal origins follow the same predicate; the question must at least compile
